@@ -1305,7 +1305,7 @@ def cases(rng, tier):  # noqa: F811
             yield from tx_menu_cases()
         for _ in range(n):
             yield rand_tx_case(rng)
-        for _ in range(m):
+        for _ in range(m if PL.enabled() else 0):
             yield rand_pair(rng)
     for c in more():
         c["omit"] = orng.random() < 0.5
